@@ -20,7 +20,7 @@ from pyvc.verify import Unit
 PROPERTY = 'C01'
 LEVEL = 'proof'
 SIFT = 'emd/sift.py'
-FUNCTIONS = ['emd.sift.sift', 'emd.support.ensure_1d_with_singleton (inlined)', 'emd.sift._nsamples_warn (inlined)']
+FUNCTIONS = ['emd.sift.get_next_imf (its C04 contract units re-run here)', 'emd.sift.sift', 'emd.support.ensure_1d_with_singleton (inlined)', 'emd.sift._nsamples_warn (inlined)']
 ASSUMPTIONS = [
     'floats are mathematical reals ("to within floating-point rounding" is not modelled)',
     'get_next_imf is replaced by its C04 contract: a pure function G of its input vector (options fixed) whose flag is cleared only for an input without envelopes, which is then returned unmodified; no energy threshold',
@@ -140,6 +140,10 @@ def units(tier):
             u = Unit('sift[%s%s]' % ('max_imfs' if cap else 'no-cap', ',options' if opts else ''), SIFT, 'sift', _mk(cap, opts), _post(cap),
                      loops={0: {'inv': _inv(cap), 'decl': {'imf': _decl_imf}}}, module=ES, inline=inl, wrap_call=call)
             U.append(u)
+    # the callee contract the sift units rely on is discharged in this check as well (the C04 units of get_next_imf without energy test),
+    # so that a change inside get_next_imf that breaks what `sift` assumes about it fails a named obligation here
+    from contracts import C04
+    U += [u for u in C04.units(tier) if u.name in ('get_next_imf[sd]', 'get_next_imf[rilling]', 'get_next_imf[fixed]')]
     return U
 
 
@@ -182,7 +186,7 @@ def replay(w):
     last = imf[:, -1]
     if np.abs(last).sum() < thr:
         return False, 'cut short by sift_thresh'
-    scale = max(1.0, np.abs(x).max())
+    scale = max(np.abs(x).max(), np.abs(imf).max()) or 1.0      # relative to the largest magnitude involved (small-amplitude recordings count too)
     err = np.abs(imf.sum(axis=1) - x).max()
     if err > 1e-9 * scale * imf.shape[1]:
         return True, 'the %d components do not sum back to the input: max |sum - x| = %.3g (x=%s opts=%s)' % (imf.shape[1], err, np.round(x, 3).tolist()[:14], o)
@@ -217,5 +221,18 @@ def refute(tier, seed, emit):
         ok, msg = replay(w)
         if ok:
             emit.violation('complete-decomposition' if 'sum back' in msg else 'final-component-non-oscillatory' if 'oscillates' in msg else 'sift-raises', w, msg)
+        if emit.full:
+            return
+    # the same decomposition at other amplitudes: exact power-of-two rescaling of input and threshold (Volt / Tesla scale recordings, raw ADC counts)
+    short = [r.randn(int(r.randint(5, 40))).cumsum() for _ in range(nr)] + sigs[:nr // 6]
+    emit.scope('%d seeded signals (random walks of length 5..39, and the signals above) rescaled by 2**-40 and 2**30 with sift_thresh rescaled alike x stop rule {sd, rilling}' % len(short))
+    for si, x in enumerate(short):
+        f = [2.0 ** -40, 2.0 ** 30][si % 2]
+        o = {} if si % 4 < 2 else {'rule': 'rilling'}
+        emit.case(('scaled', si), contract='sift')
+        w = {'kind': 'sift', 'x': (np.asarray(x) * f).tolist(), 'opts': o, 'sift_thresh': 1e-8 * f}
+        ok, msg = replay(w)
+        if ok:
+            emit.violation(('complete-decomposition' if 'sum back' in msg else 'final-component-non-oscillatory' if 'oscillates' in msg else 'sift-raises') + ':rescaled', w, msg)
         if emit.full:
             return
